@@ -220,6 +220,7 @@ func genRawHostile(g *rand.Rand, tier string) any {
 		p.Seq = append(p.Seq, RawResp{To: g.IntN(3) - 1, Shape: g.IntN(numRShapes)})
 	}
 	p.Stats = g.IntN(2) == 0
+	p.CloseErr = g.IntN(6)
 	return p
 }
 
@@ -290,6 +291,7 @@ func execRawSrv(e *Env, pp any) {
 	}
 	// what each id was sent (for the fabricated-success oracle)
 	sent := map[int][][]byte{}
+	okEnd := map[int]bool{} // calls that were sent an envelope ending them successfully
 	seqOf := map[int]int{}
 	e.Go("raw.writer", func() {
 		for _, rr := range p.Seq {
@@ -308,6 +310,12 @@ func execRawSrv(e *Env, pp any) {
 				seqOf[callID] = k + 1
 				histMu.Lock()
 				sent[callID] = append(sent[callID], MakePayload(callID, 'h', k, 12))
+				histMu.Unlock()
+			}
+			switch rr.Shape {
+			case RTrailerNoStatus, RTrailerOK, RTrailerBadMD, RUnaryOK, RUnaryExplicitOK, RBodyTrailer:
+				histMu.Lock()
+				okEnd[callID] = true
 				histMu.Unlock()
 			}
 			if rr.Shape == RGarbageBody {
@@ -340,7 +348,7 @@ func execRawSrv(e *Env, pp any) {
 		}
 	}
 	if p.Hostile {
-		checkHostileClient(e, sim, p, sent, closed)
+		checkHostileClient(e, sim, p, sent, okEnd, closed)
 	} else {
 		checkForeign(e, sim, p, closed)
 	}
@@ -452,7 +460,7 @@ func checkForeign(e *Env, sim *Sim, p *RawSrvParams, closed bool) {
 	}
 }
 
-func checkHostileClient(e *Env, sim *Sim, p *RawSrvParams, sent map[int][][]byte, closed bool) {
+func checkHostileClient(e *Env, sim *Sim, p *RawSrvParams, sent map[int][][]byte, okEnd map[int]bool, closed bool) {
 	const prop = "C13"
 	for _, id := range sim.Order {
 		r := sim.Calls[id]
@@ -485,6 +493,10 @@ func checkHostileClient(e *Env, sim *Sim, p *RawSrvParams, sent map[int][][]byte
 			}
 		} else {
 			got = r.CGot
+		}
+		// a successful end of stream is itself something an envelope must have carried
+		if c.Kind != KUnary && r.CFinalSet && r.CFinal == io.EOF && !okEnd[id] {
+			e.Violate(prop, "fabricated-end-of-stream", site, "call %d: RecvMsg returned io.EOF although no envelope addressed to it ended the stream successfully (the connection was closed with %v)", id, InjectedErr(p.CloseErr))
 		}
 		if garbage {
 			continue
